@@ -184,6 +184,16 @@ int Simulate65816::run(int max_cycles, int step)
     int cycles_min, cycles_max;
     int opcode = READ_RAM(pc);
 
+    // the instruction may overwrite itself, so get its length first
+    int length = disasm_65816(
+      memory,
+      pc,
+      instruction,
+      sizeof(instruction),
+      0,
+      &cycles_min,
+      &cycles_max);
+
     int ret = operand_exe(opcode);
 
     // stop simulation on BRK instruction
@@ -193,14 +203,7 @@ int Simulate65816::run(int max_cycles, int step)
     // only increment if reg_pc not touched
     if (ret == 0)
     {
-      reg_pc += disasm_65816(
-        memory,
-        pc,
-        instruction,
-        sizeof(instruction),
-        0,
-        &cycles_min,
-        &cycles_max);
+      reg_pc += length;
     }
 
     if (show == true)
